@@ -94,6 +94,7 @@ pub fn run_c19(r: &Runner) {
     if r.stopped() {
         return;
     }
+    families_phase(r, "alloc", &|_e, _c| true, check_c19);
     static K: [Kind; 4] = ALL_KINDS;
     let g = GenSpec { kinds: &K, profile: Profile::DEFAULT, generous_cap: false, cfg_mask: 0x7f, cfg_entry_only: false };
     r.par_random(
